@@ -1,1 +1,4 @@
 import Generated.ShippedD
+import Generated.SwitchSites
+import Generated.StaticState
+import Generated.SprintfSites
